@@ -289,7 +289,7 @@ pub fn generate(rng: &mut Rng, max_cmds: usize) -> Mega {
                 desc.push('I');
             }
             85..=89 => {
-                conv.push(MCmd::FieldList(b"t\0".to_vec()), None);
+                conv.push(MCmd::FieldList(field_list_arg(rng)), None);
                 exps.push(Some(ExpResp::Builtin));
                 desc.push('F');
             }
